@@ -21,7 +21,7 @@ import json
 import os
 import random
 
-from vlib import boot
+from vlib import boot, core
 from vlib.ref import btc_tx as R
 
 ID = 'C05'
@@ -913,7 +913,8 @@ def run_model(rec, spec, family, known_txid=None):
     for which, data in (('own', raw),) + ((('reference', expected),) if raw != expected else ()):
         clause = 'B2' if which == 'own' else 'B2ref'
         try:
-            parsed = Transaction(data)
+            with core.time_limit(20):
+                parsed = Transaction(data)
         except Exception as e:  # noqa: BLE001
             rec.violation(f'C05/{clause}/parse-raises/{lbry_site(e)}',
                           f'Transaction({which} bytes) raised {e!r}; model: {summary(spec)}; raw={data[:60].hex()}..',
@@ -960,7 +961,8 @@ def run_model(rec, spec, family, known_txid=None):
 def check_segwit(rec, spec, model, expected, exp_id, exp_hash, segwit_raw, vcase, layout):
     from lbry.wallet.transaction import Transaction
     try:
-        parsed = Transaction(segwit_raw)
+        with core.time_limit(20):
+            parsed = Transaction(segwit_raw)
     except Exception as e:  # noqa: BLE001
         rec.violation(f'C05/S-B2/parse-raises/{lbry_site(e)}',
                       f'Transaction(BIP144 bytes) raised {e!r}; model: {summary(spec)}; raw={segwit_raw[:60].hex()}..',
@@ -1038,7 +1040,8 @@ def run_fixture(rec, fx, rng, seed):
     # parse the main-net bytes directly first (the library never built them)
     ref_tx = R.decode(raw)
     try:
-        parsed = Transaction(raw)
+        with core.time_limit(20):
+            parsed = Transaction(raw)
         rec.hit('M.fixture_checked')
         compare_fields(parsed, ref_tx, 'M-B2', fixture_spec(fx), rec, one, raw)
         pid = parsed.id
